@@ -48,3 +48,18 @@ check('C16', 'exploration',
       'mask() is enumerated over lengths 10..40, five content classes and twelve mask characters and sampled to 99 characters; masking configurations on arbitrary variable-length bits are decoded through loads and IpmReader (VBS and 1014) and the result scanned for the clear PAN. PAN lengths 10..99 / to 999 are swept.',
       'For a 10-character number the masked value is the number itself (first six + last four), so the absence scan skips that element.',
       'DESIGN.md section 4 C16')
+check('C07', 'fault_enumeration',
+      'fault enumeration at every numeral/bitmap byte (all 256 values), Hypothesis multi-point mutations and random bytes, mutated files through readers and CLI tools; sys.monitoring step budget as hang oracle; atheris in the thorough tier',
+      'Every byte value at every length-prefix, PDS-length, bitmap and TLV-length byte of generated base messages is tried, plus sampled multi-point mutations, random bytes, malformed files through VbsReader/IpmReader and the two extraction tools. Any exception other than the library error, or exceeding a deterministic executed-line budget, is a violation bucketed by (entry, exception type, innermost cardutil function). The fault classes named by the property are enumerated per base message; base messages are sampled.',
+      'Termination is judged by counted Python lines in cardutil code (not wall clock). Caller-supplied configurations are well-formed.',
+      'DESIGN.md section 4 C07')
+check('C08', 'fault_enumeration',
+      'differential testing against strict and lenient independent reference decoders (three-valued oracle) over valid messages, targeted framing mutations and exhaustive prefix byte values',
+      'loads is compared with a strict reference (must accept everything it accepts, with the same dict) and a lenient reference (everything loads accepts must be an exact non-negative tiling that the lenient reference reads identically). Prefix bytes are enumerated (all 256 per digit, interesting-set products, all 65536 LLVAR pairs in thorough); overlapping-element shapes are constructed on purpose.',
+      'Trusts vlib/refcodec.py. Non-plain numerals, bit 128/bit 1, ragged PDS tails and malformed TLV content are don\'t-care regions.',
+      'DESIGN.md section 4 C08')
+check('C10', 'fault_enumeration',
+      'fault enumeration: n records x every position k x 13 fault kinds x formats x codecs; expected number and raw bytes from an independent framing/decoding of the faulty file',
+      'For n = 1..6 (12) records every position k receives each of 13 fault kinds in VBS and 1014 form under three codecs; Hypothesis adds message/configuration variety. The expected k and raw bytes are computed by the reference framing and decoders from the faulty file itself; records before k must be delivered unchanged and the operator message must name k.',
+      'Trusts vlib/refvbs.py and vlib/refcodec.py. Records in a don\'t-care region may be delivered or refused, but a refusal must carry their own number.',
+      'DESIGN.md section 4 C10')
